@@ -1019,6 +1019,11 @@ var propPar = vk.Register(&vk.Prop[ParCase]{Property: property, Name: "parallel"
 				}
 			}
 		}
+		// (drawn last) the handler finishes with Ctx.End(): each connection is flushed and closed by fiber itself while the
+		// other connections are being served
+		if rapid.IntRange(0, 7).Draw(t, "end") == 0 {
+			c.Helpers = append(c.Helpers, Helper{"end", nil})
+		}
 		return c
 	}})
 
